@@ -18,6 +18,7 @@ pub fn run_line(line: &str) -> String {
         "num" => crate::numrun::run_num(&mut t),
         "call" => crate::call::run_call(&mut t),
         "rep" => crate::call::run_rep(&mut t),
+        "nd" => crate::call::run_nd(&mut t),
         "tcmp" => (|| { let a = t.expr()?; let b = t.expr()?; Some(format!("eq {} ord {:?} clone-eq {}", a == b, a.partial_cmp(&b), a.clone() == a)) })(),
         "re" => crate::re::run_re(&mut t),
         "relaw" => crate::re::run_relaw(&mut t),
